@@ -101,6 +101,30 @@ def property_search(res, rows):
     return found
 
 
+KF_SNAPSHOT = "concurrent-range-length-not-atomic-snapshot"
+WRITES = (1, 2, 3, 4, 5)
+
+
+def overlapped_scan(e, hist):
+    """a Range / Length issued by a goroutine whose interval overlaps a write of another goroutine"""
+    if e["op"][0] not in (6, 7) or "g" not in e:
+        return False
+    return any(w["op"][0] in WRITES and w.get("g") != e["g"] and w["inv"] < e["ret"] and e["inv"] < w["ret"] for w in hist)
+
+
+def weak_scan_ok(e, hist):
+    written = {}
+    for w in hist:
+        if w["inv"] < e["ret"]:
+            if w["op"][0] == 1 or (w["op"][0] == 2 and w["res"][:1] == [0]):
+                written.setdefault(w["op"][1], set()).add(w["op"][2])
+    if e["op"][0] == 7:
+        return 0 <= e["res"][0] <= len(written)
+    pairs = list(zip(e["res"][0::2], e["res"][1::2]))
+    keys = [k for k, _ in pairs]
+    return len(set(keys)) == len(keys) and all(v in written.get(k, ()) for k, v in pairs)
+
+
 def py_linearizable(evs):
     """Property-level fallback used only to produce a replay when the Coq monitor rejects."""
     return None
@@ -131,8 +155,10 @@ def run(res, tier, seed):
     res.sample(conc[0])
     res.cov["trusted_base"] += [
         "sequential model Model/ValueMap.v is a hand transliteration of valuemap.go; tied by API-result correspondence",
-        "the concurrent half is NOT proved for all schedules: a Coq linearizability monitor (Model/Linz.v) is run on recorded histories; "
-        "the lock-free read path under the Go memory model is outside the model",
+        "concurrent half: Model/ValueMapConc.v (interleaving model of the point operations at the granularity of the code's atomic loads / CAS / "
+        "mutex sections) is proved linearizable for every schedule; Range / Length / Clear under concurrency and the real scheduler are covered "
+        "only by the Coq linearizability monitor (Model/Linz.v) run on recorded histories; the Go memory model (weaker than sequential consistency "
+        "only for racy non-atomic accesses) is outside the model",
         "real-time order of concurrent events is taken from one global atomic ticket counter (inv/ret)",
     ]
     res.assumptions += ["Go's atomic ticket counter reflects real-time order", "keys k<N> / small-int values are representative: the code never inspects keys or values"]
@@ -168,12 +194,35 @@ def run(res, tier, seed):
         for k, out in zip(ks, outs):
             badl += [k + int(x.replace("%N", "")) for x in common.parse_coq_list(out, "bad")]
         res.cov["linearizability_monitor"] = {"histories": len(hists), "rejected": len(badl)}
-        for i in badl[:2]:
+        # recorded finding: Range / Length called WHILE other goroutines write are not atomic snapshots.  A rejected history is
+        # excused only if (a) the finding is registered, (b) the same history without those overlapped scans is accepted by the
+        # Coq monitor, and (c) every overlapped scan still meets the weak contract (each key at most once, every visited pair
+        # was written by an operation invoked before the scan returned, Length between 0 and the number of keys written so far)
+        kf = [k for k in common.known_for("C12") if k.get("key") == KF_SNAPSHOT]
+        excused = []
+        if badl and kf:
+            filt = [[e for e in hists[i] if not overlapped_scan(e, hists[i])] for i in badl]
+            out2 = common.coq_eval_many([("c12lin_kf", lin_v(filt))])[0]
+            still = {int(x.replace("%N", "")) for x in common.parse_coq_list(out2, "bad")}
+            for n, i in enumerate(badl):
+                scans = [e for e in hists[i] if overlapped_scan(e, hists[i])]
+                if n not in still and scans and all(weak_scan_ok(e, hists[i]) for e in scans):
+                    excused.append(i)
+        res.cov["linearizability_monitor"]["excused_by_recorded_finding"] = len(excused)
+        if excused:
+            res.known(f"key={KF_SNAPSHOT} histories={len(excused)} first={json.dumps(hists[excused[0]])} :: {kf[0]['what']}")
+        for i in [i for i in badl if i not in excused][:2]:
             res.violation({"what": "concurrent history is not linearizable w.r.t. the map specification (Coq monitor Linz.linearizable = false)",
                            "history": hists[i]})
     except Broken as b:
         broken = b
 
+    demo = [k for k in common.known_for("C12") if k.get("key") == KF_SNAPSHOT]
+    if demo:
+        d, _ = common.run_harness(["c12-snapshot"], timeout=300)
+        res.cov["snapshot_demonstration"] = d[0]
+        if not res.known_lines:
+            res.known(f"key={KF_SNAPSHOT} demonstration={json.dumps(d[0])} :: {demo[0]['what']}")
     found = property_search(res, allrows)
     if broken and not found and not res.violations:
         res.violation({"broken": broken.what, "detail": broken.detail}, no_input=True)
